@@ -187,6 +187,8 @@ var vC14ErrBodies = []string{
 	"if errB != nil {\n\t\treturn errB\n\t}\n\treturn E0()",
 	"return q.NewR().RM()",
 	"_, _, _, err := N1()\n\treturn err",
+	"if errA != nil {\n\t\treturn myErr{}\n\t}\n\treturn E1()",
+	"if errB != nil {\n\t\treturn &myErr{}\n\t}\n\treturn E0()",
 }
 
 // bodies of a `() (int, error)` function
@@ -230,12 +232,28 @@ var vC14Named4Bodies = []string{
 	"if errA != nil {\n\t\ts = \"u\"\n\t\treturn\n\t}\n\treturn 4, 5, \"v\", errA",
 }
 
+// bodies of a `() any` function (results of type any are followed into callees like errors)
+var vC14AnyBodies = []string{
+	"return \"a\"",
+	"return 1",
+	"return A0()",
+	"return A1()",
+	"if errA != nil {\n\t\treturn \"a\"\n\t}\n\treturn A1()",
+	"if errA != nil {\n\t\treturn \"b\"\n\t}\n\treturn A0()",
+	"return nil",
+	"return E0()",
+	"if errA != nil {\n\t\treturn 'x'\n\t}\n\treturn true",
+	"return myErr{}",
+	"x := A1()\n\treturn x",
+}
+
 // what ResultsOf must print for the literal-only bodies ("" = not literal-only)
 var (
 	vC14ErrWant   = map[int]string{0: "(untyped nil)"}
 	vC14PairWant  = map[int]string{0: "(1, untyped nil)", 5: "(1 | 2, untyped nil | untyped nil)", 10: "(2, untyped nil)"}
 	vC14NamedWant  = map[int]string{}
 	vC14Named4Want = map[int]string{1: "(1, 2, \"s\", untyped nil)"}
+	vC14AnyWant    = map[int]string{0: "(\"a\")", 1: "(1)", 6: "(untyped nil)", 8: "(120 | true)"}
 )
 
 func vC14Func(name, sig, body string) string {
@@ -304,16 +322,16 @@ func vC14Index(fset *token.FileSet, pp, qq, rr *packages.Package) *vC14World {
 }
 
 // Verif_C14_ResultsOf: the functions E0 E1 (() error), P0 P1 (() (int, error)),
-// N0 (named results), N1 (a grouped named field followed by two more) get
+// N0 (named results), N1 (a grouped named field followed by two more), A0 A1 (() any) get
 // bodies from the menus. `sym` selects which are chosen symbolically (bit i =
 // function i; the others get the body of the `fix`-th fixed rotation).
 func Verif_C14_ResultsOf(sym int, fix int) {
-	names := []string{"E0", "E1", "P0", "P1", "N0", "N1"}
-	sigs := []string{"error", "error", "(int, error)", "(int, error)", "(r int, err error)", "(a, b int, s string, err error)"}
-	menus := [][]string{vC14ErrBodies, vC14ErrBodies, vC14PairBodies, vC14PairBodies, vC14NamedBodies, vC14Named4Bodies}
-	wants := []map[int]string{vC14ErrWant, vC14ErrWant, vC14PairWant, vC14PairWant, vC14NamedWant, vC14Named4Want}
+	names := []string{"E0", "E1", "P0", "P1", "N0", "N1", "A0", "A1"}
+	sigs := []string{"error", "error", "(int, error)", "(int, error)", "(r int, err error)", "(a, b int, s string, err error)", "any", "any"}
+	menus := [][]string{vC14ErrBodies, vC14ErrBodies, vC14PairBodies, vC14PairBodies, vC14NamedBodies, vC14Named4Bodies, vC14AnyBodies, vC14AnyBodies}
+	wants := []map[int]string{vC14ErrWant, vC14ErrWant, vC14PairWant, vC14PairWant, vC14NamedWant, vC14Named4Want, vC14AnyWant, vC14AnyWant}
 	// fixed rotations: bodies that call into the symbolic ones
-	fixed := [][]int{{3, 2, 3, 2, 4, 3}, {1, 6, 6, 4, 2, 2}, {4, 8, 2, 9, 3, 4}, {20, 21, 15, 16, 5, 5}}
+	fixed := [][]int{{3, 2, 3, 2, 4, 3, 3, 2}, {1, 6, 6, 4, 2, 2, 7, 10}, {4, 8, 2, 9, 3, 4, 1, 2}, {24, 25, 15, 16, 5, 5, 4, 5}}
 	choice := make([]int, len(names))
 	src := vC14Prelude
 	for i := range names {
